@@ -103,12 +103,14 @@ func hashVec(v []int32) string {
 	return fmt.Sprintf("%016x", h.Sum64())
 }
 
+var curIdx int
+
 func runOnce(t *testing.T, w *World, prop, tier string, cfg simrt.Config) (*simrt.Result, *Env) {
 	var env *Env
 	cfg.MaxSteps = w.MaxSteps
 	cfg.MaxSimTime = w.MaxSimTime
 	res := simrt.Run(t, cfg, func(s *simrt.Sim) {
-		env = &Env{S: s, Prop: prop, Tier: tier}
+		env = &Env{S: s, Prop: prop, Tier: tier, Idx: curIdx}
 		setupEnv(env)
 		w.Run(env)
 	})
@@ -206,6 +208,7 @@ func TestWorker(t *testing.T) {
 			fmt.Fprintln(os.Stderr, "worker:", err)
 			os.Exit(2)
 		}
+		curIdx = rf.RunIndex
 		t0 := time.Now()
 		res, env := runOnce(t, w, rf.Property, rf.Tier, simrt.Config{Seed: 1, Replay: true, PlanVec: rf.Plan, RunVec: rf.Choices, Trace: true, Strategy: -1})
 		r := mkRec(rf.RunIndex, rf.Seed, res, env, time.Since(t0))
@@ -221,6 +224,7 @@ func TestWorker(t *testing.T) {
 			break
 		}
 		seed := mixSeed(*fSeed, idx, w.Name, *fProp)
+		curIdx = idx
 		t0 := time.Now()
 		res, env := runOnce(t, w, *fProp, *fTier, simrt.Config{Seed: seed, Trace: *fTrace, Strategy: -1})
 		r := mkRec(idx, seed, res, env, time.Since(t0))
@@ -257,7 +261,7 @@ func TestWorker(t *testing.T) {
 					Property: *fProp, World: w.Name, Class: res.Class, Seed: *fSeed, RunIndex: idx, Tier: *fTier,
 					Plan: final.PlanVec, Choices: final.RunVec,
 					Expect:   expectT{Violation: firstLine(final.Msg), LogHash: fmt.Sprintf("%016x", final.LogHash), SchedHash: fmt.Sprintf("%016x", final.SchedHash)},
-					Trace:    tail(final.Trace, 400),
+					Trace:    condense(final.Trace),
 					Original: sizeT{len(res.PlanVec), len(res.RunVec), nonzero(res.RunVec), res.Steps},
 					Minimal:  sizeT{len(final.PlanVec), len(final.RunVec), nonzero(final.RunVec), final.Steps},
 				}
@@ -293,6 +297,29 @@ func tail(xs []string, n int) []string {
 		return xs
 	}
 	return append([]string{fmt.Sprintf("... %d earlier events omitted ...", len(xs)-n)}, xs[len(xs)-n:]...)
+}
+
+// condense keeps every event that is not a plain scheduler step, plus the last
+// 150 lines whatever they are, so that a replay file reads as the story of the
+// run (the full log is printed by ./check replay).
+func condense(xs []string) []string {
+	var out []string
+	skipped := 0
+	for i, x := range xs {
+		if i >= len(xs)-150 || !strings.Contains(x, " step ") {
+			if skipped > 0 {
+				out = append(out, fmt.Sprintf("        ... %d scheduler steps ...", skipped))
+				skipped = 0
+			}
+			out = append(out, x)
+		} else {
+			skipped++
+		}
+	}
+	if len(out) > 900 {
+		out = append(append(append([]string{}, out[:200]...), fmt.Sprintf("        ... %d lines omitted ...", len(out)-800)), out[len(out)-600:]...)
+	}
+	return out
 }
 
 func nonzero(v []int32) int {
